@@ -73,7 +73,7 @@ def make_doc(seed: int) -> tuple[dict, dict]:
     r = rng.stream(seed, "doc")
     p_on = r.choice([0.6, 0.8, 0.95])
     toggles = {t: r.random() < p_on for t in docgen.TOGGLES}
-    for t in ("alias_arrays", "alias_unions", "unions", "allof", "mutual_refs", "self_refs", "shuffle_decl"):
+    for t in ("alias_arrays", "alias_unions", "unions", "allof", "mutual_refs", "self_refs", "shuffle_decl", "allof_tighten"):
         if r.random() < 0.8:
             toggles[t] = True
     g = docgen.DocGen(r, toggles=toggles, size=r.choice(["small", "medium", "medium"]), profile="schemas")
